@@ -278,3 +278,580 @@ Proof.
   unfold encode_spec. cbn [encode_aux].
   apply runs_encode_aux; [assumption|pows; lia|apply onehot_lt].
 Qed.
+
+(* ================= the invariant of the encode_aux recursion ================= *)
+Definition cur_ok (k b s : N) (rest : list (N*N)) : Prop :=
+  k < 2^28 /\ b < 2^18 /\ s < 2^18 /\ s <> 0 /\
+  match rest with
+  | [] => True
+  | (k', p') :: _ => k < k' \/ (k = k' /\ (b < p' / 18 \/
+                     (b = p' / 18 /\ forall i, N.testbit s i = true -> i < p' mod 18)))
+  end.
+
+Lemma cur_ok_next k' p' s1 rest : sorted2 ((k', p') :: rest) -> bounded ((k', p') :: rest) ->
+  s1 < 2^18 -> s1 <> 0 -> (forall i, N.testbit s1 i = true -> i <= p' mod 18) ->
+  cur_ok k' (p' / 18) s1 rest.
+Proof.
+  intros [Hhd Hs'] Hbd Hs1 Hnz Hbits.
+  inversion Hbd as [|x l [Hk' Hp'] Hbd' Ex]; subst. cbn [fst snd] in *.
+  assert (Hr : p' mod 18 < 18) by (apply N.mod_lt; lia).
+  split; [assumption|]. split; [pows; lia|]. split; [assumption|]. split; [assumption|].
+  destruct rest as [|[k2 p2] rest2]; [exact I|].
+  destruct Hhd as [Hlt|[Heq Hlt]]; cbn [fst snd] in *; [left; exact Hlt|].
+  right; split; [exact Heq|].
+  destruct (N.lt_ge_cases (p' / 18) (p2 / 18)) as [Hq|Hq]; [left; exact Hq|].
+  right. split; [lia|]. intros i Hi. apply Hbits in Hi. lia.
+Qed.
+
+Lemma cur_ok_init k p rest : sorted2 ((k, p) :: rest) -> bounded ((k, p) :: rest) ->
+  cur_ok k (p / 18) (onehot p) rest.
+Proof.
+  intros Hs Hb. apply cur_ok_next; try assumption; [apply onehot_lt|apply onehot_nz|].
+  intros i Hi. rewrite testbit_onehot in Hi. apply N.eqb_eq in Hi. lia.
+Qed.
+
+Lemma encode_aux_same k b s p rest : p / 18 = b ->
+  encode_aux (Some (k, b, s)) ((k, p) :: rest) = encode_aux (Some (k, b, N.lor s (onehot p))) rest.
+Proof. intros <-. cbn [encode_aux]. now rewrite !N.eqb_refl. Qed.
+Lemma encode_aux_diff k b s k' p' rest : (k' =? k) && (p' / 18 =? b) = false ->
+  encode_aux (Some (k, b, s)) ((k', p') :: rest)
+  = word_of k b s :: encode_aux (Some (k', p' / 18, onehot p')) rest.
+Proof. intros E. cbn [encode_aux]. now rewrite E. Qed.
+
+(* induction principle: empty / same header / new header *)
+Lemma enc_ind (P : N -> N -> N -> list (N*N) -> Prop) :
+  (forall k b s, cur_ok k b s [] -> P k b s []) ->
+  (forall k b s p rest, cur_ok k b s ((k, p) :: rest) -> p / 18 = b -> p < 2^18 ->
+     (forall i, N.testbit s i = true -> i < p mod 18) ->
+     cur_ok k b (N.lor s (onehot p)) rest -> P k b (N.lor s (onehot p)) rest ->
+     P k b s ((k, p) :: rest)) ->
+  (forall k b s k' p' rest, cur_ok k b s ((k', p') :: rest) ->
+     (k' =? k) && (p' / 18 =? b) = false -> (k < k' \/ (k = k' /\ b < p' / 18)) ->
+     k' < 2^28 -> p' < 2^18 ->
+     cur_ok k' (p' / 18) (onehot p') rest -> P k' (p' / 18) (onehot p') rest ->
+     P k b s ((k', p') :: rest)) ->
+  forall rest k b s, sorted2 rest -> bounded rest -> cur_ok k b s rest -> P k b s rest.
+Proof.
+  intros Hnil Hsame Hdiff.
+  induction rest as [|[k' p'] rest IH]; intros k b s Hs Hbd Hok; [apply Hnil; assumption|].
+  pose proof Hok as (Hk & Hb & Hss & Hnz & Hnext).
+  pose proof Hs as [Hhd Hs'].
+  inversion Hbd as [|x l [Hk' Hp'] Hbd' Ex]; subst. cbn [fst snd] in *.
+  assert (Hr : p' mod 18 < 18) by (apply N.mod_lt; lia).
+  destruct ((k' =? k) && (p' / 18 =? b)) eqn:Esame.
+  - apply andb_true_iff in Esame as [Ek Eb]. apply N.eqb_eq in Ek, Eb. subst k'.
+    assert (Hlow : forall i, N.testbit s i = true -> i < p' mod 18).
+    { destruct Hnext as [Hn|[_ [Hn|[_ Hn]]]]; [lia|lia|exact Hn]. }
+    assert (Hok' : cur_ok k b (N.lor s (onehot p')) rest).
+    { rewrite <- Eb. apply cur_ok_next; try assumption.
+      - apply lor_lt18; [assumption|apply onehot_lt].
+      - intro E. apply N.lor_eq_0_iff in E. tauto.
+      - intros i Hi. rewrite N.lor_spec, testbit_onehot in Hi.
+        apply orb_true_iff in Hi as [Hi|Hi]; [apply Hlow in Hi; lia|apply N.eqb_eq in Hi; lia]. }
+    apply Hsame; try assumption. apply IH; assumption.
+  - assert (Hok' : cur_ok k' (p' / 18) (onehot p') rest) by (apply cur_ok_init; assumption).
+    apply Hdiff; try assumption.
+    + destruct Hnext as [Hn|[Hn [Hn'|[Hn' _]]]]; [left; exact Hn|right; split; assumption|].
+      subst. rewrite !N.eqb_refl in Esame. discriminate.
+    + apply IH; assumption.
+Qed.
+
+Lemma encode_aux_head : forall rest k b s, s < 2^18 ->
+  exists s' tl, encode_aux (Some (k, b, s)) rest = word_of k b s' :: tl /\ s' < 2^18.
+Proof.
+  induction rest as [|[k' p'] rest IH]; intros k b s Hs; cbn [encode_aux].
+  - exists s, []. split; [reflexivity|assumption].
+  - destruct ((k' =? k) && (p' / 18 =? b)).
+    + apply IH. apply lor_lt18; [assumption|apply onehot_lt].
+    + exists s, (encode_aux (Some (k', p' / 18, onehot p')) rest). split; [reflexivity|assumption].
+Qed.
+
+(* ================= 2. decode inverts encode_spec ================= *)
+Definition bits18 : list N := map N.of_nat (seq 0 18).
+Definition bit_list (s : N) : list N := filter (N.testbit s) bits18.
+Definition decode_triple (k b s : N) : list (N*N) := map (fun i => (k, i + b * 18)) (bit_list s).
+(* rows contributed by one word, in bit order *)
+Definition word_rows (w : N) : list (N*N) :=
+  map (fun bit => (dec_key w, bit + dec_msb w * lsb_bits))
+      (filter (fun bit => negb (N.land w (N.shiftl 1 bit) =? 0)) bits18).
+
+Lemma bits18_lt i : In i bits18 -> i < 18.
+Proof. unfold bits18. rewrite in_map_iff. intros (n & <- & Hn). apply in_seq in Hn. lia. Qed.
+
+Lemma land_bit_test w i : negb (N.land w (N.shiftl 1 i) =? 0) = N.testbit w i.
+Proof.
+  rewrite N.shiftl_1_l.
+  destruct (N.testbit w i) eqn:T.
+  - apply negb_true_iff, N.eqb_neq. intro E.
+    assert (F : N.testbit (N.land w (2 ^ i)) i = true)
+      by (rewrite N.land_spec, T, N.pow2_bits_true; reflexivity).
+    rewrite E, N.bits_0 in F. discriminate.
+  - apply negb_false_iff, N.eqb_eq. apply N.bits_inj; intro j.
+    rewrite N.land_spec, N.bits_0, N.pow2_bits_eqb.
+    destruct (N.eqb_spec i j) as [<-|]; [now rewrite T|apply andb_false_r].
+Qed.
+
+Lemma word_rows_word k b s : k < 2^28 -> b < 2^18 -> s < 2^18 ->
+  word_rows (word_of k b s) = decode_triple k b s.
+Proof.
+  intros Hk Hb Hs. unfold word_rows, decode_triple, bit_list.
+  rewrite dec_key_word, dec_msb_word, lsb_bits_val by assumption.
+  f_equal. apply filter_ext_in. intros i Hi. apply bits18_lt in Hi.
+  rewrite land_bit_test.
+  rewrite <- (N.mod_pow2_bits_low (word_of k b s) 18 i) by assumption.
+  f_equal. unfold word_of. pows. lia.
+Qed.
+
+Lemma bit_list_onehot p : bit_list (onehot p) = [p mod 18].
+Proof.
+  assert (H : p mod 18 < 18) by (apply N.mod_lt; lia).
+  unfold bit_list.
+  assert (E : forall i, N.testbit (onehot p) i = (i =? p mod 18)) by apply testbit_onehot.
+  rewrite (filter_ext _ _ E).
+  remember (p mod 18) as r. clear Heqr E p.
+  assert (C : r = 0 \/ r = 1 \/ r = 2 \/ r = 3 \/ r = 4 \/ r = 5 \/ r = 6 \/ r = 7 \/ r = 8 \/ r = 9 \/
+              r = 10 \/ r = 11 \/ r = 12 \/ r = 13 \/ r = 14 \/ r = 15 \/ r = 16 \/ r = 17) by lia.
+  repeat (destruct C as [->|C]; [reflexivity|]). subst; reflexivity.
+Qed.
+
+Lemma filter_seq_lor_high s r :
+  r < 18 -> (forall i, N.testbit s i = true -> i < r) ->
+  bit_list (N.lor s (N.shiftl 1 r)) = bit_list s ++ [r].
+Proof.
+  intros Hr Hlow. unfold bit_list, bits18.
+  assert (T : forall i, N.testbit (N.lor s (N.shiftl 1 r)) i = N.testbit s i || (i =? r)).
+  { intro i. rewrite N.lor_spec, N.shiftl_1_l, N.pow2_bits_eqb. now rewrite (N.eqb_sym r i). }
+  rewrite (filter_ext _ _ T).
+  set (n := N.to_nat r).
+  assert (Hn : (n < 18)%nat) by (unfold n; lia).
+  assert (E18 : seq 0 18 = (seq 0 n ++ [n] ++ seq (S n) (18 - S n))%list).
+  { replace 18%nat with (n + S (18 - S n))%nat at 1 by lia. rewrite seq_app. reflexivity. }
+  rewrite E18. clear E18. remember (18 - S n)%nat as m eqn:Em.
+  rewrite !map_app, !filter_app. cbn [map].
+  assert (A : forall l, (forall x, In x l -> (x < n)%nat) ->
+              filter (fun i => N.testbit s i || (i =? r)) (map N.of_nat l) = filter (N.testbit s) (map N.of_nat l)).
+  { induction l as [|x l IH]; intros HL; [reflexivity|]. cbn [map filter].
+    assert (Hx : (x < n)%nat) by (apply HL; now left).
+    replace (N.of_nat x =? r) with false by (symmetry; apply N.eqb_neq; unfold n in Hx; lia).
+    rewrite orb_false_r. rewrite IH by (intros; apply HL; now right). reflexivity. }
+  assert (B : forall l, (forall x, In x l -> (n < x)%nat) ->
+              filter (fun i => N.testbit s i || (i =? r)) (map N.of_nat l) = [] /\
+              filter (N.testbit s) (map N.of_nat l) = []).
+  { induction l as [|x l IH]; intros HL; [split; reflexivity|]. cbn [map filter].
+    assert (Hx : (n < x)%nat) by (apply HL; now left).
+    assert (F : N.testbit s (N.of_nat x) = false).
+    { destruct (N.testbit s (N.of_nat x)) eqn:E; [|reflexivity]. apply Hlow in E. unfold n in Hx. lia. }
+    rewrite F. replace (N.of_nat x =? r) with false by (symmetry; apply N.eqb_neq; unfold n in Hx; lia).
+    cbn [orb]. apply IH. intros; apply HL; now right. }
+  rewrite A by (intros x Hx; apply in_seq in Hx; lia).
+  destruct (B (seq (S n) m)) as [B1 B2]; [intros x Hx; apply in_seq in Hx; lia|].
+  rewrite B1, B2.
+  cbn [filter].
+  assert (Sr : N.testbit s (N.of_nat n) = false).
+  { destruct (N.testbit s (N.of_nat n)) eqn:E; [|reflexivity]. apply Hlow in E. unfold n in E. lia. }
+  rewrite Sr. replace (N.of_nat n =? r) with true by (symmetry; apply N.eqb_eq; unfold n; lia).
+  cbn [orb app]. rewrite !app_nil_r. f_equal. f_equal. unfold n. lia.
+Qed.
+
+Lemma decode_triple_onehot k p : decode_triple k (p / 18) (onehot p) = [(k, p)].
+Proof. unfold decode_triple. rewrite bit_list_onehot. cbn [map]. f_equal. f_equal. lia. Qed.
+
+Lemma rows_aux : forall rest k b s, sorted2 rest -> bounded rest -> cur_ok k b s rest ->
+  flat_map word_rows (encode_aux (Some (k, b, s)) rest) = decode_triple k b s ++ rest.
+Proof.
+  apply (enc_ind (fun k b s rest =>
+    flat_map word_rows (encode_aux (Some (k, b, s)) rest) = decode_triple k b s ++ rest)).
+  - intros k b s (Hk & Hb & Hs & _). cbn [encode_aux flat_map].
+    rewrite word_rows_word by assumption. reflexivity.
+  - intros k b s p rest _ Eb Hp Hlow _ IH.
+    rewrite encode_aux_same by assumption. rewrite IH.
+    unfold decode_triple, onehot. rewrite filter_seq_lor_high by (try assumption; apply N.mod_lt; lia).
+    rewrite map_app. cbn [map]. rewrite <- app_assoc. cbn [app]. f_equal. f_equal. f_equal. lia.
+  - intros k b s k' p' rest (Hk & Hb & Hs & _) E _ _ _ _ IH.
+    rewrite encode_aux_diff by assumption. cbn [flat_map].
+    rewrite word_rows_word by assumption. rewrite IH, decode_triple_onehot. reflexivity.
+Qed.
+
+Lemma rows_encode_spec ps : sorted2 ps -> bounded ps -> flat_map word_rows (encode_spec ps) = ps.
+Proof.
+  intros Hs Hb. destruct ps as [|[k p] rest]; [reflexivity|].
+  unfold encode_spec. cbn [encode_aux].
+  inversion Hb as [|x l _ Hb' Ex]; subst. destruct Hs as [Hhd Hs'].
+  rewrite rows_aux; [now rewrite decode_triple_onehot|assumption|assumption|].
+  apply cur_ok_init; [split|]; assumption.
+Qed.
+
+(* swapping the two flat_map loops is a permutation *)
+Lemma flat_map_app_perm {A B} (f g : A -> list B) l :
+  Permutation (flat_map (fun x => f x ++ g x) l) (flat_map f l ++ flat_map g l).
+Proof.
+  induction l as [|x t IH]; cbn [flat_map]; [reflexivity|].
+  rewrite <- !app_assoc. apply Permutation_app_head.
+  etransitivity; [apply Permutation_app_head; exact IH|].
+  apply Permutation_app_swap_app.
+Qed.
+
+Lemma flat_map_nil {A B} (l : list A) : flat_map (fun _ => @nil B) l = [].
+Proof. induction l; cbn [flat_map app]; auto. Qed.
+
+Lemma flat_map_swap {A B C} (f : A -> B -> C) (g : A -> B -> bool) (la : list A) (lb : list B) :
+  Permutation (flat_map (fun a => map (f a) (filter (g a) lb)) la)
+              (flat_map (fun b => map (fun a => f a b) (filter (fun a => g a b) la)) lb).
+Proof.
+  induction la as [|a la IH]; cbn [flat_map].
+  - cbn [filter map]. now rewrite flat_map_nil.
+  - rewrite (flat_map_ext _ (fun b => (if g a b then [f a b] else []) ++
+                                      map (fun a0 => f a0 b) (filter (fun a0 => g a0 b) la))).
+    + etransitivity; [|apply Permutation_sym, flat_map_app_perm].
+      replace (flat_map (fun b => if g a b then [f a b] else []) lb) with (map (f a) (filter (g a) lb)).
+      * apply Permutation_app_head. exact IH.
+      * clear. induction lb as [|b lb IH]; [reflexivity|]. cbn [filter flat_map].
+        destruct (g a b); cbn [map app]; now rewrite IH.
+    + intro b. cbn [filter]. destruct (g a b); reflexivity.
+Qed.
+
+Lemma rows_perm ws :
+  Permutation (flat_map (rows_of_bit ws) (map N.of_nat (seq 0 (N.to_nat lsb_bits))))
+              (flat_map word_rows ws).
+Proof.
+  change (map N.of_nat (seq 0 (N.to_nat lsb_bits))) with bits18.
+  exact (flat_map_swap (fun bit w => (dec_key w, bit + dec_msb w * lsb_bits))
+                       (fun bit w => negb (N.land w (N.shiftl 1 bit) =? 0)) bits18 ws).
+Qed.
+
+(* insertion sort of a permutation of a strictly sorted list *)
+Definition kple (a b : N*N) : Prop := kp_leb a b = true.
+Lemma kple_iff a b : kple a b <-> (fst a < fst b \/ (fst a = fst b /\ snd a <= snd b)).
+Proof.
+  unfold kple, kp_leb. rewrite orb_true_iff, andb_true_iff, N.ltb_lt, N.eqb_eq, N.leb_le. reflexivity.
+Qed.
+Lemma kple_trans a b c : kple a b -> kple b c -> kple a c.
+Proof. rewrite !kple_iff. lia. Qed.
+Lemma kple_antisym a b : kple a b -> kple b a -> a = b.
+Proof.
+  rewrite !kple_iff. destruct a as [a1 a2], b as [b1 b2]. cbn [fst snd]. intros H1 H2.
+  assert (a1 = b1) by lia. assert (a2 = b2) by lia. subst. reflexivity.
+Qed.
+Lemma kp_leb_false x a : kp_leb x a = false -> kple a x.
+Proof.
+  intro H. apply kple_iff. unfold kp_leb in H.
+  apply orb_false_iff in H as [H1 H2]. apply N.ltb_ge in H1.
+  apply andb_false_iff in H2 as [H2|H2]; [apply N.eqb_neq in H2|apply N.leb_gt in H2]; lia.
+Qed.
+
+Lemma lexsort_cons x l : lexsort_kp (x :: l) = insert_kp x (lexsort_kp l).
+Proof. reflexivity. Qed.
+
+Lemma insert_perm x l : Permutation (x :: l) (insert_kp x l).
+Proof.
+  induction l as [|a l IH]; cbn [insert_kp]; [reflexivity|].
+  destruct (kp_leb x a); [reflexivity|].
+  etransitivity; [apply perm_swap|apply perm_skip; exact IH].
+Qed.
+Lemma lexsort_perm l : Permutation l (lexsort_kp l).
+Proof.
+  induction l as [|x l IH]; [reflexivity|]. rewrite lexsort_cons.
+  etransitivity; [apply perm_skip; exact IH|apply insert_perm].
+Qed.
+
+Lemma insert_sorted_kp x l : Sorted kple l -> Sorted kple (insert_kp x l).
+Proof.
+  induction l as [|a l IH]; intros Hs; cbn [insert_kp]; [repeat constructor|].
+  destruct (kp_leb x a) eqn:E.
+  - constructor; [assumption|constructor; exact E].
+  - inversion Hs as [|? ? Hs' Hhd]; subst. constructor; [apply IH; assumption|].
+    apply kp_leb_false in E.
+    destruct l as [|y t]; cbn [insert_kp]; [constructor; exact E|].
+    destruct (kp_leb x y); constructor; [exact E|]. inversion Hhd; assumption.
+Qed.
+Lemma lexsort_sorted l : Sorted kple (lexsort_kp l).
+Proof.
+  induction l as [|x l IH]; [constructor|]. rewrite lexsort_cons. apply insert_sorted_kp, IH.
+Qed.
+
+Lemma sorted_perm_eq : forall l1 l2,
+  StronglySorted kple l1 -> StronglySorted kple l2 -> Permutation l1 l2 -> l1 = l2.
+Proof.
+  induction l1 as [|a t1 IH]; intros l2 S1 S2 P.
+  - apply Permutation_nil in P. now subst.
+  - destruct l2 as [|b t2]; [apply Permutation_sym, Permutation_nil in P; discriminate|].
+    inversion S1 as [|? ? S1' F1]; inversion S2 as [|? ? S2' F2]; subst.
+    assert (a = b).
+    { assert (Ia : In a (b :: t2)) by (eapply Permutation_in; [exact P|left; reflexivity]).
+      assert (Ib : In b (a :: t1)) by (eapply Permutation_in; [apply Permutation_sym; exact P|left; reflexivity]).
+      destruct Ia as [->|Ia]; [reflexivity|]. destruct Ib as [->|Ib]; [reflexivity|].
+      rewrite Forall_forall in F1, F2. apply kple_antisym; [apply F1|apply F2]; assumption. }
+    subst b. f_equal. apply IH; try assumption. eapply Permutation_cons_inv; exact P.
+Qed.
+
+Lemma kple_transitive : Relations_1.Transitive kple.
+Proof. intros x y z. apply kple_trans. Qed.
+
+Lemma sorted2_Sorted l : sorted2 l -> Sorted kple l.
+Proof.
+  induction l as [|a l IH]; intros Hs; [constructor|]. destruct Hs as [Hhd Hs].
+  constructor; [apply IH; exact Hs|].
+  destruct l as [|b t]; constructor. apply kple_iff. unfold lt2 in Hhd. lia.
+Qed.
+
+Lemma lexsort_of_perm ps l : sorted2 ps -> Permutation l ps -> lexsort_kp l = ps.
+Proof.
+  intros Hs P. apply sorted_perm_eq.
+  - apply Sorted_StronglySorted; [exact kple_transitive|apply lexsort_sorted].
+  - apply Sorted_StronglySorted; [exact kple_transitive|apply sorted2_Sorted; exact Hs].
+  - etransitivity; [apply Permutation_sym, lexsort_perm|exact P].
+Qed.
+
+Lemma group_sorted_eq l : group_sorted l = group_by_key l.
+Proof.
+  induction l as [|[k p] t IH]; [reflexivity|]. cbn [group_sorted group_by_key]. now rewrite IH.
+Qed.
+
+Theorem decode_encode : forall ps, sorted2 ps -> bounded ps ->
+  decode (encode_spec ps) = group_by_key ps.
+Proof.
+  intros ps Hs Hb. unfold decode.
+  rewrite (lexsort_of_perm ps); [apply group_sorted_eq|assumption|].
+  etransitivity; [apply rows_perm|]. now rewrite rows_encode_spec.
+Qed.
+
+(* ================= 3. the encoding is canonical ================= *)
+Definition good_word (w : N) : Prop := payload_lsb_of w <> 0 /\ w < 2^64.
+
+Lemma hdr_lt k b k' b' : b < 2^18 -> b' < 2^18 -> (k < k' \/ (k = k' /\ b < b')) ->
+  word_of k b 0 < word_of k' b' 0.
+Proof. intros Hb Hb' H. unfold word_of. pows. lia. Qed.
+
+Lemma good_word_of k b s : k < 2^28 -> b < 2^18 -> s < 2^18 -> s <> 0 -> good_word (word_of k b s).
+Proof.
+  intros Hk Hb Hs Hnz. split; [rewrite payload_lsb_of_word; assumption|apply word_lt64; assumption].
+Qed.
+
+Lemma canon_aux : forall rest k b s, sorted2 rest -> bounded rest -> cur_ok k b s rest ->
+  exists s' tl, encode_aux (Some (k, b, s)) rest = word_of k b s' :: tl /\ s' < 2^18 /\ s' <> 0 /\
+                Sorted N.lt (map header_of (word_of k b s' :: tl)) /\ Forall good_word tl.
+Proof.
+  apply (enc_ind (fun k b s rest =>
+    exists s' tl, encode_aux (Some (k, b, s)) rest = word_of k b s' :: tl /\ s' < 2^18 /\ s' <> 0 /\
+                  Sorted N.lt (map header_of (word_of k b s' :: tl)) /\ Forall good_word tl)).
+  - intros k b s (Hk & Hb & Hs & Hnz & _). exists s, [].
+    cbn [encode_aux map]. repeat split; try assumption; repeat constructor.
+  - intros k b s p rest _ Eb _ _ _ IH. rewrite encode_aux_same by assumption. exact IH.
+  - intros k b s k' p' rest (Hk & Hb & Hs & Hnz & _) E Hlt Hk' Hp' (_ & Hb' & _) (s' & tl & E' & Hs' & Hnz' & Hsort & Hgood).
+    rewrite encode_aux_diff by assumption. rewrite E'.
+    exists s, (word_of k' (p' / 18) s' :: tl). repeat split; try assumption.
+    + cbn [map] in *. constructor; [exact Hsort|]. constructor.
+      rewrite !header_of_word by assumption. apply hdr_lt; assumption.
+    + constructor; [apply good_word_of; assumption|exact Hgood].
+Qed.
+
+Theorem encode_canonical : forall ps, sorted2 ps -> bounded ps ->
+  StronglySorted N.lt (map header_of (encode_spec ps)) /\
+  Forall (fun w => payload_lsb_of w <> 0 /\ w < 2^64) (encode_spec ps).
+Proof.
+  intros ps Hs Hb. destruct ps as [|[k p] rest]; [split; constructor|].
+  unfold encode_spec. cbn [encode_aux].
+  pose proof (cur_ok_init k p rest Hs Hb) as Hok.
+  inversion Hb as [|x l _ Hb' Ex]; subst. destruct Hs as [Hhd Hs'].
+  destruct (canon_aux rest _ _ _ Hs' Hb' Hok) as (s' & tl & E & Hs1 & Hnz & Hsort & Hgood).
+  rewrite E. split.
+  - apply Sorted_StronglySorted; [intros x y z; apply N.lt_trans|exact Hsort].
+  - constructor; [|exact Hgood].
+    destruct Hok as (Hk & Hbk & _). apply (good_word_of k (p / 18) s'); assumption.
+Qed.
+
+(* ================= 4. counts and distinct keys ================= *)
+Lemma popcount_double n : popcount (2 * n) = popcount n.
+Proof. destruct n; reflexivity. Qed.
+Lemma popcount_succ_double n : popcount (2 * n + 1) = popcount n + 1.
+Proof. destruct n as [|q]; [reflexivity|]. cbn [N.mul N.add Pos.mul Pos.add popcount pop_pos]. lia. Qed.
+
+Lemma popcount_add_pow2 : forall r s, s < 2^r -> popcount (s + 2^r) = popcount s + 1.
+Proof.
+  induction r as [|r IH] using N.peano_ind; intros s Hs.
+  - change (2^0) with 1 in *. assert (s = 0) by lia. subst. reflexivity.
+  - rewrite N.pow_succ_r' in *.
+    assert (Hh : s / 2 < 2^r) by (apply N.div_lt_upper_bound; lia).
+    assert (Hm : s mod 2 < 2) by (apply N.mod_lt; lia).
+    pose proof (N.div_mod s 2 ltac:(lia)) as Hd.
+    assert (C : s mod 2 = 0 \/ s mod 2 = 1) by lia. destruct C as [C|C]; rewrite C in Hd.
+    + replace (s + 2 * 2^r) with (2 * (s / 2 + 2^r)) by lia.
+      rewrite popcount_double, IH by assumption.
+      replace s with (2 * (s / 2)) at 2 by lia. now rewrite popcount_double.
+    + replace (s + 2 * 2^r) with (2 * (s / 2 + 2^r) + 1) by lia.
+      rewrite popcount_succ_double, IH by assumption.
+      replace s with (2 * (s / 2) + 1) at 2 by lia. now rewrite popcount_succ_double.
+Qed.
+
+Lemma bits_below_lt s r : (forall i, N.testbit s i = true -> i < r) -> s < 2^r.
+Proof.
+  intros H. destruct (N.eq_dec s 0) as [->|Hnz].
+  - apply N.neq_0_lt_0, N.pow_nonzero. lia.
+  - apply N.log2_lt_pow2; [lia|]. apply H. apply N.bit_log2. assumption.
+Qed.
+
+Lemma popcount_onehot p : popcount (onehot p) = 1.
+Proof.
+  unfold onehot. rewrite N.shiftl_1_l.
+  replace (2 ^ (p mod 18)) with (0 + 2 ^ (p mod 18)) by lia.
+  rewrite popcount_add_pow2; [reflexivity|]. apply N.neq_0_lt_0, N.pow_nonzero. lia.
+Qed.
+
+Lemma popcount_lor_onehot s p : (forall i, N.testbit s i = true -> i < p mod 18) ->
+  popcount (N.lor s (onehot p)) = popcount s + 1.
+Proof.
+  intros H. apply bits_below_lt in H. unfold onehot.
+  rewrite N.lor_comm, lor_shiftl_add by assumption.
+  rewrite N.mul_1_l, N.add_comm. apply popcount_add_pow2. assumption.
+Qed.
+
+Definition rs_step (k v : N) (r : list (N*N)) : list (N*N) :=
+  match r with
+  | (k', s) :: rest => if k =? k' then (k, v + s) :: rest else (k, v) :: (k', s) :: rest
+  | [] => [(k, v)]
+  end.
+Lemma runs_sum_cons k v t : runs_sum ((k, v) :: t) = rs_step k v (runs_sum t).
+Proof. reflexivity. Qed.
+Lemma runs_sum_merge k a c t : runs_sum ((k, a) :: (k, c) :: t) = runs_sum ((k, a + c) :: t).
+Proof.
+  rewrite !runs_sum_cons. destruct (runs_sum t) as [|[k2 s2] r]; unfold rs_step.
+  - now rewrite N.eqb_refl.
+  - destruct (k =? k2); rewrite N.eqb_refl; [now rewrite N.add_assoc|reflexivity].
+Qed.
+
+Definition ones_of (ps : list (N*N)) : list (N*N) := map (fun kp => (fst kp, 1)) ps.
+
+Lemma counts_spec_runs ps : counts_spec ps = runs_sum (ones_of ps).
+Proof.
+  unfold counts_spec, ones_of.
+  induction ps as [|[k p] t IH]; [reflexivity|].
+  cbn [map fst group_by_key]. rewrite runs_sum_cons, <- IH.
+  destruct (group_by_key t) as [|[k' l] r]; cbn [map rs_step fst snd length]; [reflexivity|].
+  destruct (k =? k'); cbn [map fst snd length]; [|reflexivity].
+  f_equal. f_equal. lia.
+Qed.
+
+Definition kc_of (w : N) : N * N := (N.shiftr w 36, popcount (N.land w 262143)).
+Lemma kc_of_word k b s : b < 2^18 -> s < 2^18 -> kc_of (word_of k b s) = (k, popcount s).
+Proof. intros Hb Hs. unfold kc_of. now rewrite key_of_word, lsb_of_word. Qed.
+
+Lemma counts_aux : forall rest k b s, sorted2 rest -> bounded rest -> cur_ok k b s rest ->
+  runs_sum (map kc_of (encode_aux (Some (k, b, s)) rest)) = runs_sum ((k, popcount s) :: ones_of rest).
+Proof.
+  apply (enc_ind (fun k b s rest =>
+    runs_sum (map kc_of (encode_aux (Some (k, b, s)) rest)) = runs_sum ((k, popcount s) :: ones_of rest))).
+  - intros k b s (_ & Hb & Hs & _). cbn [encode_aux map ones_of]. now rewrite kc_of_word.
+  - intros k b s p rest _ Eb _ Hlow _ IH. rewrite encode_aux_same by assumption. rewrite IH.
+    unfold ones_of. cbn [map fst]. rewrite runs_sum_merge, popcount_lor_onehot by assumption. reflexivity.
+  - intros k b s k' p' rest (_ & Hb & Hs & _) E _ _ _ _ IH.
+    rewrite encode_aux_diff by assumption. cbn [map]. rewrite kc_of_word by assumption.
+    rewrite runs_sum_cons, IH, popcount_onehot. unfold ones_of. cbn [map fst].
+    rewrite (runs_sum_cons k). reflexivity.
+Qed.
+
+Theorem counts_correct : forall ps, sorted2 ps -> bounded ps ->
+  num_values_per_key (encode_spec ps) = Done (counts_spec ps).
+Proof.
+  intros ps Hs Hb. unfold num_values_per_key. rewrite popcount64_reduce_correct. f_equal.
+  unfold popcount64_reduce_spec. rewrite key_shift_val, plm_val. fold kc_of.
+  rewrite counts_spec_runs.
+  destruct ps as [|[k p] rest]; [reflexivity|].
+  unfold encode_spec. cbn [encode_aux].
+  pose proof (cur_ok_init k p rest Hs Hb) as Hok.
+  inversion Hb as [|x l _ Hb' Ex]; subst. destruct Hs as [Hhd Hs'].
+  rewrite counts_aux by assumption. rewrite popcount_onehot. reflexivity.
+Qed.
+
+Lemma dedup_cons2 x y t :
+  dedup_adj (x :: y :: t) = if x =? y then dedup_adj (y :: t) else x :: dedup_adj (y :: t).
+Proof. reflexivity. Qed.
+
+Lemma group_by_key_head k p t : exists l r, group_by_key ((k, p) :: t) = (k, l) :: r.
+Proof.
+  cbn [group_by_key]. destruct (group_by_key t) as [|[k' l] r]; [eauto|].
+  destruct (k =? k'); eauto.
+Qed.
+
+Lemma keys_spec_dedup ps : keys_spec ps = dedup_adj (map fst ps).
+Proof.
+  unfold keys_spec.
+  induction ps as [|[k p] t IH]; [reflexivity|].
+  destruct t as [|[k' p'] t']; [reflexivity|].
+  destruct (group_by_key_head k' p' t') as (l & r & E).
+  cbn [group_by_key] in *. rewrite E in *. cbn [map fst] in *. rewrite dedup_cons2.
+  destruct (N.eqb_spec k k') as [->|Hne]; cbn [map fst]; [exact IH|now rewrite IH].
+Qed.
+
+Definition key_of (w : N) : N := N.shiftr w 36.
+
+Lemma keys_aux : forall rest k b s, sorted2 rest -> bounded rest -> cur_ok k b s rest ->
+  dedup_adj (map key_of (encode_aux (Some (k, b, s)) rest)) = dedup_adj (k :: map fst rest).
+Proof.
+  apply (enc_ind (fun k b s rest =>
+    dedup_adj (map key_of (encode_aux (Some (k, b, s)) rest)) = dedup_adj (k :: map fst rest))).
+  - intros k b s (_ & Hb & Hs & _). cbn [encode_aux map]. unfold key_of. now rewrite key_of_word.
+  - intros k b s p rest _ Eb _ _ _ IH. rewrite encode_aux_same by assumption. rewrite IH.
+    cbn [map fst]. rewrite (dedup_cons2 k k), N.eqb_refl. reflexivity.
+  - intros k b s k' p' rest (_ & Hb & Hs & _) E _ _ _ (_ & Hb' & _) IH.
+    rewrite encode_aux_diff by assumption.
+    destruct (encode_aux_head rest k' (p' / 18) (onehot p') (onehot_lt p')) as (s' & tl & E' & Hs').
+    rewrite E' in *. cbn [map fst] in *. unfold key_of at 1 2. unfold key_of at 1 in IH.
+    rewrite key_of_word in * by assumption. rewrite key_of_word by assumption.
+    rewrite !dedup_cons2. rewrite IH. reflexivity.
+Qed.
+
+Lemma encode_spec_nonempty ps : ps <> [] -> encode_spec ps <> [].
+Proof.
+  destruct ps as [|[k p] rest]; [congruence|]. intros _. unfold encode_spec. cbn [encode_aux].
+  destruct (encode_aux_head rest k (p / 18) (onehot p) (onehot_lt p)) as (s' & tl & E & _).
+  rewrite E. discriminate.
+Qed.
+
+Theorem keys_unique_correct : forall ps, sorted2 ps -> bounded ps -> ps <> [] ->
+  keys_unique (encode_spec ps) = Done (keys_spec ps).
+Proof.
+  intros ps Hs Hb Hne. unfold keys_unique.
+  rewrite unique_correct by (left; apply encode_spec_nonempty; assumption). f_equal.
+  unfold unique_spec. rewrite key_shift_val. fold key_of. rewrite keys_spec_dedup.
+  destruct ps as [|[k p] rest]; [congruence|].
+  unfold encode_spec. cbn [encode_aux].
+  pose proof (cur_ok_init k p rest Hs Hb) as Hok.
+  inversion Hb as [|x l _ Hb' Ex]; subst. destruct Hs as [Hhd Hs'].
+  rewrite keys_aux by assumption. reflexivity.
+Qed.
+
+(* ================= 5. corollaries on the numpy-level encoder ================= *)
+Corollary roundtrip : forall ps, sorted2 ps -> bounded ps ->
+  decode (encode (map fst ps) (map snd ps)) = group_by_key ps.
+Proof. intros ps Hs Hb. rewrite encode_correct by assumption. apply decode_encode; assumption. Qed.
+
+Corollary encode_canonical_real : forall ps, sorted2 ps -> bounded ps ->
+  StronglySorted N.lt (map header_of (encode (map fst ps) (map snd ps))) /\
+  Forall (fun w => payload_lsb_of w <> 0 /\ w < 2^64) (encode (map fst ps) (map snd ps)).
+Proof. intros ps Hs Hb. rewrite encode_correct by assumption. apply encode_canonical; assumption. Qed.
+
+Corollary counts_correct_real : forall ps, sorted2 ps -> bounded ps ->
+  num_values_per_key (encode (map fst ps) (map snd ps)) = Done (counts_spec ps).
+Proof. intros ps Hs Hb. rewrite encode_correct by assumption. apply counts_correct; assumption. Qed.
+
+Corollary keys_unique_correct_real : forall ps, sorted2 ps -> bounded ps -> ps <> [] ->
+  keys_unique (encode (map fst ps) (map snd ps)) = Done (keys_spec ps).
+Proof. intros ps Hs Hb Hne. rewrite encode_correct by assumption. apply keys_unique_correct; assumption. Qed.
+
+(* the hypotheses are satisfiable *)
+Example nonvacuous : sorted2 ex1 /\ bounded ex1 /\ sorted2 ex2 /\ bounded ex2.
+Proof.
+  unfold ex1, ex2, bounded. pows.
+  repeat split; cbn [sorted2]; unfold lt2; cbn [fst snd]; repeat split; try lia;
+    repeat constructor; cbn [fst snd]; lia.
+Qed.
+
+Print Assumptions encode_correct.
+Print Assumptions decode_encode.
+Print Assumptions encode_canonical.
+Print Assumptions counts_correct.
+Print Assumptions keys_unique_correct.
+Print Assumptions roundtrip.
+Print Assumptions encode_canonical_real.
+Print Assumptions counts_correct_real.
+Print Assumptions keys_unique_correct_real.
